@@ -1377,7 +1377,33 @@ func c14G12(l *core.Ledger) {
 				why = "element i of the wrapper list does not wrap element i of " + what + " (" + sx.OriginsString(sx.Origins(rawNode)) + ")"
 			}
 		})
-		// and the list is as long as the source: make([]*Node, len(src)) or Size()
+		// the same built by appending in a range over the source (the order of a range over a slice
+		// is the slice's order): append(list, &Node{element of the source})
+		if !ok {
+			sx.AllInstrs(fn, func(nd sx.Node, in ssa.Instruction) {
+				c, isCall := in.(*ssa.Call)
+				if !isCall || !sx.InLoop(nd) {
+					return
+				}
+				if b, isB := c.Call.Value.(*ssa.Builtin); !isB || b.Name() != "append" || len(c.Call.Args) != 2 {
+					return
+				}
+				v := appendedNode(c)
+				al, isAl := v.(*ssa.Alloc)
+				if !isAl {
+					return
+				}
+				if n, isN := al.Type().(*types.Pointer).Elem().(*types.Named); !isN || n.Obj().Name() != "Node" {
+					return
+				}
+				rawNode := allocFieldStores(al)["RawNode"]
+				if rawNode != nil && sx.All(sx.Origins(rawNode), func(o sx.Origin) bool {
+					return (o.Kind == sx.KElem || o.Kind == sx.KRange) && sx.All(o.Base, isSrc)
+				}) {
+					ok = true
+				}
+			})
+		}
 		l.Check(ok, "C14-G12", key, fn.Pos(), "wrapper node i wraps raw node i of "+what, "the generated node list does not mirror "+what+" ("+why+"): Nodes() of a configuration disagrees with the nodes its calls go to")
 	}
 	if fn := method("Manager", "NewConfiguration"); fn != nil {
